@@ -139,6 +139,8 @@ FRAGMENTS = [
 
 #: fragments that make sense for any rank (run on 1-D, 2-D and 3-D inputs)
 FRAGMENTS_ANY = [
+    "k = 3\ndef scale(v):\n    return v * k\ndef apply(fn, v):\n    k = 100\n    return fn(v) + k\nr = apply(scale, t)",
+    "flag = True\ndef pick(v):\n    return v if flag else -v\ndef twice(g, v):\n    flag = False\n    return g(g(v))\nr = twice(pick, t)",
     "buf = torch.zeros(3)\ndef setk(b, k):\n    b[k] = 1\n    return k\nsetk(buf, 1)\nz = setk(buf, 2)\nr = buf + t.flatten()[0] + z",
     "buf = torch.zeros(3)\nout = []\ndef walk(cur, k, s):\n    if k == 0:\n        out.append(cur.clone())\n        return\n    for p in range(s, 3 - k + 1):\n        cur[p] = 1\n        walk(cur, k - 1, p + 1)\n        cur[p] = 0\nwalk(buf, 2, 0)\nr = torch.stack(out) + t.flatten()[0]",
     "buf = torch.zeros(3)\ndef bad(b):\n    b[0] = 5\n    return buf[0]\nr = bad(buf) + t.flatten()[0]",
